@@ -18,7 +18,7 @@ FacetValues == [
     sid     |-> {"ok", "bad"},
     eesig   |-> {"peer", "other"},
     eetime  |-> {"ok", "expired", "notyet"},
-    eeca    |-> {"no", "yes"},
+    eeca    |-> {"no", "ext_false", "yes"},       \* Basic Constraints absent / present with cA = FALSE (still not a CA) / cA = TRUE
     eeaki   |-> {"peer", "none", "other"},
     crlsig  |-> {"peer", "other"},
     crltime |-> {"ok", "stale", "future"},
@@ -27,21 +27,21 @@ FacetValues == [
     key     |-> {"peer", "other"} ]
 Facets == DOMAIN FacetValues
 Good == [attrs |-> {"ok"}, digest |-> {"ok"}, sig |-> {"ok"}, sid |-> {"ok"}, eesig |-> {"peer"}, eetime |-> {"ok"},
-         eeca |-> {"no"}, eeaki |-> {"peer", "none"}, crlsig |-> {"peer"}, crltime |-> {"ok"}, crlaki |-> {"peer", "none"},
+         eeca |-> {"no", "ext_false"}, eeaki |-> {"peer", "none"}, crlsig |-> {"peer"}, crltime |-> {"ok"}, crlaki |-> {"peer", "none"},
          revoked |-> {"none", "other"}, key |-> {"peer"}]
 \* The statement is relative to the key the message is validated against (m.f.key): the EE certificate and the CRL must be
 \* signed by THAT key and their authority key identifiers, where present, must name it.  (A message whose certificate and CRL
 \* are all issued by the other key is a perfectly valid message of that other peer.)
 Accept(m) == LET k == m.f.key IN
     /\ m.f.attrs = "ok" /\ m.f.digest = "ok" /\ m.f.sig = "ok" /\ m.f.sid = "ok"
-    /\ m.f.eesig = k /\ m.f.eetime = "ok" /\ m.f.eeca = "no" /\ m.f.eeaki \in {k, "none"}
+    /\ m.f.eesig = k /\ m.f.eetime = "ok" /\ m.f.eeca \in {"no", "ext_false"} /\ m.f.eeaki \in {k, "none"}
     /\ m.f.crlsig = k /\ m.f.crltime = "ok" /\ m.f.crlaki \in {k, "none"}
     /\ m.f.revoked \in {"none", "other"}
 VARIABLES msg, devs
 vars == <<msg, devs>>
-Init == /\ \E s \in Sizes, ea \in Good.eeaki, ca \in Good.crlaki, rv \in Good.revoked :
+Init == /\ \E s \in Sizes, ea \in Good.eeaki, ca \in Good.crlaki, rv \in Good.revoked, ec \in Good.eeca :
              msg = [size |-> s, f |-> [attrs |-> "ok", digest |-> "ok", sig |-> "ok", sid |-> "ok", eesig |-> "peer", eetime |-> "ok",
-                                       eeca |-> "no", eeaki |-> ea, crlsig |-> "peer", crltime |-> "ok", crlaki |-> ca, revoked |-> rv, key |-> "peer"]]
+                                       eeca |-> ec, eeaki |-> ea, crlsig |-> "peer", crltime |-> "ok", crlaki |-> ca, revoked |-> rv, key |-> "peer"]]
         /\ devs = 0
 Deviate == /\ devs < MaxDev
            /\ \E fc \in Facets : \E v \in FacetValues[fc] \ Good[fc] :
